@@ -219,10 +219,11 @@ def compare_replay(hist, events, nf):
 def caught_behaviours(run, tier, tag):
     """behaviours of MC_LifecycleApi_cr in which the caller catches the panic of at least one refused or failed installation
     (signature gate, mmap, mprotect) and goes on using the same injector: further installations, calls, a normal scope exit"""
-    hc, gc = gen_behaviours("MC_LifecycleApi_cr", timeout=3000)
+    hc, gc = gen_behaviours("MC_LifecycleApi_cr", timeout=3000, workers=4)
     run.states += gc["distinct"]
     run.transitions += gc["generated"]
-    hc = [h for h in hc if any(x["act"] == "Install" and x.get("caught") for x in h)]
+    # several workers print in any order: sort, so that the seeded sample below is the same on every run
+    hc = sorted((h for h in hc if any(x["act"] == "Install" and x.get("caught") for x in h)), key=lambda h: json.dumps(h, sort_keys=True))
     rnd = vlib.rnd("caught-" + tag)
     n = 500 if tier == "quick" else 5000
     if len(hc) > n:
@@ -231,8 +232,8 @@ def caught_behaviours(run, tier, tag):
     return hc
 
 
-def gen_behaviours(cfg, tier_seed_sim=None, timeout=900):
-    r = tlc.check("MC_LifecycleApi", cfg, workers=1, timeout=timeout, coverage=False)
+def gen_behaviours(cfg, tier_seed_sim=None, timeout=900, workers=1):
+    r = tlc.check("MC_LifecycleApi", cfg, workers=workers, timeout=timeout, coverage=False)
     if r["violation"]:
         raise ToolError("generator spec violated: %s" % r["violation"])
     return tlc.parse_replay_lines(r["prints"]), r
